@@ -111,11 +111,11 @@ func init() {
 	reg("C05",
 		"Structural clauses of the set family: commands flagged readonly (SINTER/SUNION/SDIFF/SMEMBERS/…) reach no mutation site of database state — the algebra workers never modify an operand, they work on fresh dictionaries (A5-readonly; write commands reach one); emptiness test after member removal (A4-empty), insertion after creation (A4-nonempty-create), nil-tested accessors, argument agreement (A7, redisSet.go).",
 		"that the computed set equals the mathematical result; that a STORE of an empty result deletes the destination",
-		nil, ruleReadonly(nil), family(2, []string{"redisSet.go"}, ruleA4Empty), family(1, []string{"redisSet.go"}, ruleNonEmptyCreate), family(3, []string{"redisSet.go"}, ruleTypedNil), family(3, []string{"redisSet.go"}, ruleA4Inert), a7Files(15, "redisSet.go"))
+		nil, ruleReadonly(nil), rulePayloadOwn, ruleOperandLoop, ruleStoreNonEmpty, ruleSelfMove, family(2, []string{"redisSet.go"}, ruleA4Empty), family(1, []string{"redisSet.go"}, ruleNonEmptyCreate), family(3, []string{"redisSet.go"}, ruleTypedNil), family(3, []string{"redisSet.go"}, ruleA4Inert), a7Files(15, "redisSet.go"))
 	reg("C06",
 		"Structural necessary conditions of keyspace discipline, decided for every site of the current source: (A4-empty) after every site that can shrink a list/hash/set every path to the end of the critical section tests the aggregate's count against zero and removes the key on the empty side; (A4-nonempty-create) an element is inserted after every creation of an empty aggregate; (R-payload-agree) every type assertion on a key's payload is dominated by a test of the key-type flag and asserts the Go type producers store for that flag; (R-ctor-agree) list constructors (COPY, load) set the full field set; (R-typed-nil) typed-accessor results are nil-tested before dereference (WRONGTYPE before any use); (A7, redisCore.go) options of the keyspace commands are producible by the grammar; (A6) the keyspace commands (EXISTS, TYPE, RENAME(NX), COPY, KEYS, RANDOMKEY, DBSIZE ...) see the keyspace only through an expiry filter, so an expired key is absent for them as the property demands.",
 		"glob matching, SORT ordering, DBSIZE/KEYS values, deep-copy equality of COPY/RENAME as values",
-		nil, ruleA4Empty, ruleNonEmptyCreate, rulePayloadAgree, ruleCtorAgree, ruleTypedNil, ruleA6, ruleA4Inert, a7Files(20, "redisCore.go"))
+		nil, ruleA4Empty, ruleNonEmptyCreate, rulePayloadAgree, ruleCtorAgree, ruleTypedNil, ruleA6, ruleA4Inert, rulePayloadOwn, ruleStoreNonEmpty, a7Files(20, "redisCore.go"))
 	reg("C07",
 		"A6 (who-may-read the keyspace raw): every read of a database's keyspace dictionary goes through an expiry filter (tests isExpired, yields (nil,false) on the expired edge), or is an iteration that tests isExpired per element, or is the snapshot writer (identified as the function that drives the gob encoder). This is exactly the universally quantified 'every command treats an expired key as missing' clause.",
 		"deadline arithmetic, TTL/PTTL/EXPIRETIME values, NX/XX/GT/LT comparisons, which commands keep/reset/set the deadline, behaviour at the deadline instant (time is a runtime quantity)",
@@ -124,11 +124,11 @@ func init() {
 		"Under the lock-class assumption: (A1-DB) every access to database state happens with the database mutex held on every path from every root; (lock-balanced) no function returns with the mutex possibly still held; (A3) every keyspace command opens at most one critical section (blocking commands: per attempt). Together this is the static form of strict two-phase locking with one lock, which implies atomicity of single-database commands.",
 		"real-time ordering across connections beyond mutual exclusion; cross-database scenarios; wrap-around of the 27-bit command id compared by the re-entrant lock",
 		[]string{"the owner-token protocol: ds.multiLock equals a command's id only while the EXEC (or exclusive section) that published it holds ds.mu, and cmdContext.multi is true for a queued command only while that EXEC replays it"},
-		ruleA1("A1-guarded", onlyDB), ruleLockBalanced(nil), ruleA3)
+		ruleA1("A1-guarded", onlyDB), ruleLockBalanced(nil), ruleA3, ruleA1PayloadBytes, ruleC14DbTable, ruleC14Select)
 	reg("C09",
 		"Structure of the MULTI/EXEC implementation, decided on all paths: state reset on every exit of EXEC/DISCARD; commands are only queued while a queue exists (append guard, non-nil response after append, handler call dominated by response==nil, control table = {multi,exec,discard,watch}); EXEC replays under the exclusive database hold with the lock id rewritten; a prepared command is never re-bound to another database; error branches of the control commands do not touch queue/watches; a command rejected while queueing leaves a mark EXEC reads; nothing replayable takes the database mutex non-re-entrantly.",
 		"isolation against other connections beyond the lock argument of C08; reply contents; guards inside the dispatcher that depend on connection state other than the queue",
-		nil, ruleC09Reset, ruleC09QueueOnly, ruleC09Exclusive, ruleC09AbortFlag, ruleC09ErrorsInert, ruleA2Reentrant, ruleC09Bind)
+		nil, ruleC09Reset, ruleC09QueueOnly, ruleC09Exclusive, ruleC09AbortFlag, ruleC09ErrorsInert, ruleA2Reentrant, ruleC09Bind, ruleC09Replay)
 	reg("C10",
 		"A4-version: 'every kind of modification is visible to the comparison at EXEC' is a claim over all write sites: every mutation site of database state (including replacement of the whole keyspace by a flush) has, on every path through it inside its critical section, an event that gives the key a new version id or removes it from the keyspace. A6: the version comparison and the capture at WATCH use the expiry-aware lookup. R-C09-reset: the watch set is cleared on every exit of EXEC/DISCARD.",
 		"the 'iff' across arbitrary interleavings (follows from C08's lock argument plus this rule); expiry-as-modification timing; re-WATCH of an already watched key",
@@ -149,7 +149,7 @@ func init() {
 	reg("C14",
 		"(R-C14-dbtable) entries of the database table are inserted only when absent and after the index range test, and are never deleted or replaced (a flush empties a database in place), so every connection that selected a database keeps seeing it; (R-C14-select) the connection's selection changes only under the validity result, and a command is bound to the database of the connection it was prepared for; (A1 modes) per-connection session state is not touched through another connection's clientState.",
 		"values returned by DBSIZE, cross-connection visibility timing",
-		nil, ruleC14DbTable, ruleC14Select, ruleA1ModesFor("clientState.selectedDb", "clientState.ds", "clientState.name", "clientState.cmdQueue", "clientState.watches", "clientState.respVersion", "clientState.noEvict", "clientState.libName", "clientState.libVer", "clientState.multiInProgress"))
+		nil, ruleC14DbTable, ruleC14Select, ruleC14Enumerate, ruleA1ModesFor("clientState.selectedDb", "clientState.ds", "clientState.name", "clientState.cmdQueue", "clientState.watches", "clientState.respVersion", "clientState.noEvict", "clientState.libName", "clientState.libVer", "clientState.multiInProgress"))
 	reg("C15",
 		"(R-C15-exhaustive) every RESP type that reply-producing code or the request parser can put into a value is a case of the type switches that consume it (serialize, resp3To2, toNative, String); (R-C15-closure) the down-converter produces only RESP2 kinds and recurses into children; (R-C15-downconvert) the RESP2 branch of the dispatcher applies it to every handler/hook result; (R-C15-hello) the protocol version is only set under a guard restricting it to 2 or 3 whose failing side answers an error; the version field is confined to its connection (A1).",
 		"element order/nesting equality between the two encodings; boolean → 0/1 and other value-level conversions",
@@ -162,7 +162,7 @@ func init() {
 	reg("C19",
 		"(A4-dirty) every mutation site of database state marks the database dirty on every path inside its critical section; (R-C19-all-dbs) the saver ranges over the whole database table; (R-C19-records) writer and loader agree on the record stream: no stored entry is skipped, every header/key-object field is written and read back, both branch on every key type; (R-C19-atomic-replace) the snapshot is written to a temporary file, closed, then renamed; (R-C14-dbtable) a flushed database keeps its table entry, so its emptiness is saved; (R-payload-agree/R-ctor-agree) writer and loader use the canonical payload types and build complete lists.",
 		"gob round-trip equality of values; on-disk states at crash points beyond the create/rename structure (needs execution or a file-system model)",
-		nil, ruleA4Dirty, ruleC19AllDbs, ruleC19Records, ruleC19Atomic, ruleC14DbTable, rulePayloadAgree, ruleCtorAgree)
+		nil, ruleA4Dirty, ruleC19AllDbs, ruleC14Enumerate, ruleC19Records, ruleC19Atomic, ruleC14DbTable, rulePayloadAgree, ruleCtorAgree)
 	reg("C20",
 		"Structure of start-up and shutdown: RequestTermination reaches a close request for the registered connections and WaitForTermination waits for their goroutines; no process-terminating call is reachable from the API; package-level state written at run time is instance-agnostic; the port retry loop depends on an error its callee can return.",
 		"timing of Close, port release by the OS",
